@@ -92,7 +92,11 @@ struct FaceBox {
     void destroy() { if (face) { gr_face_destroy(face); face = nullptr; } }
 };
 
+// src: 0 callbacks with release (borrow ledger), 1 file face, 2 deprecated gr_make_face (no release);
+//      +8: the deprecated *_with_seg_cache variant of the same constructor (cache size argument is ignored by the library)
 inline void make_face(FaceBox &fb, const uint8_t *font, size_t n, int src, unsigned opts) {
+    const bool segc = (src & 8) != 0;
+    src &= 7;
     fb.src = src;
     if (src == 1) {
         fb.fd = memfd_create("grfont", 0);
@@ -100,15 +104,15 @@ inline void make_face(FaceBox &fb, const uint8_t *font, size_t n, int src, unsig
         size_t off = 0;
         while (off < n) { ssize_t w = write(fb.fd, font + off, n - off); if (w <= 0) { perror("write"); exit(3); } off += size_t(w); }
         char path[64]; snprintf(path, sizeof path, "/proc/self/fd/%d", fb.fd);
-        fb.face = gr_make_file_face(path, opts);
+        fb.face = segc ? gr_make_file_face_with_seg_cache(path, 100, opts) : gr_make_file_face(path, opts);
         return;
     }
     fb.mf.reset(new MemFace(font, n));
     if (src == 2) {
         fb.mf->own_copy = false;     // no release function: hand out pointers into the (exact-size) font buffer
-        fb.face = gr_make_face(fb.mf.get(), MemFace::get_table, opts);
+        fb.face = segc ? gr_make_face_with_seg_cache(fb.mf.get(), MemFace::get_table, 100, opts) : gr_make_face(fb.mf.get(), MemFace::get_table, opts);
         return;
     }
     gr_face_ops ops = fb.mf->ops();
-    fb.face = gr_make_face_with_ops(fb.mf.get(), &ops, opts);
+    fb.face = segc ? gr_make_face_with_seg_cache_and_ops(fb.mf.get(), &ops, 100, opts) : gr_make_face_with_ops(fb.mf.get(), &ops, opts);
 }
